@@ -79,10 +79,63 @@ def gen_grid(rng):
     return {"gkind": kind, "name": m.name, "lon": lon, "lat": lat, "table": m.table(w)}
 
 
-def build_grid(c):
+R_MPAS = 6371229.0     # MPAS-Atmosphere sphere radius in metres
+
+
+def mpas_dataset(c):
+    """the grid written the MPAS way, in memory: radians, 1-based verticesOnCell padded with 0,
+    coordinates on a sphere of radius R_MPAS and areaCell in m^2 (NOT unit-sphere areas)"""
+    import math
+    import xarray as xr
+    lon = np.deg2rad(np.array(c["lon"], dtype=float))
+    lat = np.deg2rad(np.array(c["lat"], dtype=float))
+    rows = [[i for i in r if i != FILL] for r in c["table"]]
+    w = len(c["table"][0])
+    voc = np.array([[i + 1 for i in r] + [0] * (w - len(r)) for r in rows], dtype=np.int32)
+    nv = len(c["lon"])
+    cov = [[f + 1 for f, r in enumerate(rows) if v in r] for v in range(nv)]
+    deg = max(3, max(len(x) for x in cov))
+    cov = np.array([x + [0] * (deg - len(x)) for x in cov], dtype=np.int32)
+    x = np.cos(lon) * np.cos(lat)
+    y = np.sin(lon) * np.cos(lat)
+    z = np.sin(lat)
+    area = np.array([(0.3 + 0.1 * ((7 * f) % 5)) * R_MPAS ** 2 for f in range(len(rows))])
+    return xr.Dataset(
+        {"latVertex": (("nVertices",), lat), "lonVertex": (("nVertices",), lon),
+         "xVertex": (("nVertices",), R_MPAS * x), "yVertex": (("nVertices",), R_MPAS * y), "zVertex": (("nVertices",), R_MPAS * z),
+         "verticesOnCell": (("nCells", "maxEdges"), voc),
+         "nEdgesOnCell": (("nCells",), np.array([len(r) for r in rows], dtype=np.int32)),
+         "cellsOnVertex": (("nVertices", "vertexDegree"), cov),
+         "areaCell": (("nCells",), area)},
+        attrs={"sphere_radius": R_MPAS, "on_a_sphere": "YES"})
+
+
+def build_grid(c, shifted=False):
+    """a fresh Grid of the case's source kind; shifted = the coordinate replacement of the history
+    applied through the public setters (so that the reference is built exactly like the object under test)"""
     import uxarray as ux
-    return ux.Grid.from_topology(np.array(c["lon"], dtype=float), np.array(c["lat"], dtype=float),
-                                 np.array(c["table"], dtype=np.intp), fill_value=FILL)
+    import xarray as xr
+    src = c.get("source", "topology")
+    if src == "mpas":
+        g = ux.Grid.from_dataset(mpas_dataset(c))
+    else:
+        g = ux.Grid.from_topology(np.array(c["lon"], dtype=float), np.array(c["lat"], dtype=float),
+                                  np.array(c["table"], dtype=np.intp), fill_value=FILL)
+        if src == "assigned_face_areas":
+            nf = len(c["table"])
+            g.face_areas = xr.DataArray(np.array([(2.0 + f) * 1.0e6 for f in range(nf)]), dims=["n_face"])
+    if shifted:
+        set_coords(g)
+    return g
+
+
+def set_coords(g):
+    """replace the node coordinates through the public setters (another, still valid geometry)"""
+    import xarray as xr
+    lon = np.asarray(g.node_lon.values, dtype=float)
+    lat = np.asarray(g.node_lat.values, dtype=float)
+    g.node_lon = xr.DataArray(((lon + 11.0 + 180.0) % 360.0) - 180.0, dims=["n_node"])
+    g.node_lat = xr.DataArray(lat * 0.96, dims=["n_node"])
 
 
 # ---------------------------------------------------------------------------------------------
@@ -112,11 +165,57 @@ def lead_shape(rng, counts):
     return shape
 
 
+PRE_OPS = ["integrate_same", "integrate_other", "integrate_default", "compute_mut_same", "compute_mut_other",
+           "compute_mut_default", "face_areas_mut", "set_coords"]
+PRE_TEMPLATES = [[], [], ["face_areas_mut"], ["compute_mut_same"], ["compute_mut_default"],
+                 ["integrate_same", "set_coords"], ["compute_mut_same", "set_coords"],
+                 ["compute_mut_other", "compute_mut_same", "face_areas_mut"], ["integrate_default", "face_areas_mut", "compute_mut_default"]]
+
+
 def gen_case(rng):
     g = gen_grid(rng)
-    rule = rng.choice(RULES)
-    return {"kind": "case", "grid": g, "rule": list(rule), "seed": rng.randrange(1 << 30),
-            "warm": rng.choice(["none", "face_areas", "other_rule"])}
+    # half of the cases use the default rule/order (where a shortcut through cached areas would hide)
+    rule = ("triangular", 4) if rng.random() < 0.4 else rng.choice(RULES)
+    r = rng.random()
+    if g["gkind"] in ("mesh", "partial-seed", "pyramid(V=F)"):
+        g["source"] = "mpas" if r < 0.25 else ("assigned_face_areas" if r < 0.45 else "topology")
+    else:
+        g["source"] = "assigned_face_areas" if r < 0.3 else "topology"
+    pre = list(rng.choice(PRE_TEMPLATES))
+    for _ in range(rng.randrange(0, 3)):
+        pre.insert(rng.randrange(len(pre) + 1), rng.choice(PRE_OPS))
+    return {"kind": "case", "grid": g, "rule": list(rule), "seed": rng.randrange(1 << 30), "pre": pre}
+
+
+def run_pre_history(g, case, rule, nf):
+    """what happened on the grid object before the integrate calls under test: earlier integrate /
+    compute_face_areas / face_areas calls with the same and other (rule, order), in-place edits of
+    every array they returned, coordinate replacement through the setters; returns whether the
+    coordinates were replaced"""
+    import uxarray as ux
+    other = ("gaussian", 3) if rule != ("gaussian", 3) else ("triangular", 8)
+    shifted = False
+    for op in case.get("pre", []):
+        if op.startswith("integrate"):
+            rr = rule if op.endswith("same") else (other if op.endswith("other") else None)
+            da = ux.UxDataArray(np.arange(nf, dtype=float), dims=("n_face",), uxgrid=g, name="w")
+            res = da.integrate(*rr) if rr else da.integrate()
+            try:
+                res.values[...] = -1.0
+            except Exception:
+                pass
+        elif op.startswith("compute_mut"):
+            rr = rule if op.endswith("same") else (other if op.endswith("other") else None)
+            a, j = g.compute_face_areas(*rr) if rr else g.compute_face_areas()
+            a[...] = a / np.sum(a)              # "normalise my areas" -- the caller's own array
+            j[...] = 0.0
+        elif op == "face_areas_mut":
+            v = g.face_areas.values
+            v[...] = v * 6371.0 ** 2
+        elif op == "set_coords":
+            set_coords(g)
+            shifted = True
+    return shifted
 
 
 # ---------------------------------------------------------------------------------------------
@@ -174,26 +273,38 @@ def run_case(ck, case, ctx):
     gc = case["grid"]
     rule = tuple(case["rule"])
     info0 = {"gkind": gc["gkind"]}
+    info0["source"] = gc.get("source", "topology")
     try:
         g = build_grid(gc)
         counts = (int(g.n_face), int(g.n_node), int(g.n_edge))
-        ref_areas = np.array(build_grid(gc).compute_face_areas(rule[0], rule[1])[0], dtype=float)
-        total = float(build_grid(gc).calculate_total_face_area(rule[0], rule[1]))
     except Exception as ex:
-        ck.fail("raises", case, dict(info0, call="grid construction / compute_face_areas"), detail=repr(ex))
+        ck.fail("raises", case, dict(info0, call="grid construction"), detail=repr(ex))
         return
     nf, nn, ne = counts
     ctx.count("grid", gc["gkind"])
+    ctx.count("source", info0["source"])
     ctx.count("coincidence", "+".join([x for x, t in (("F=V", nf == nn), ("F=E", nf == ne)) if t]) or "none")
-    # previous history on the grid object (stale-cache mutations): default areas cached, or another rule used
+    # previous history on the grid object
     try:
-        if case["warm"] == "face_areas":
-            _ = g.face_areas
-        elif case["warm"] == "other_rule":
-            _ = g.compute_face_areas("gaussian" if rule[0] == "triangular" else "triangular", 1)
-            _ = g.face_areas
+        n_shift = sum(1 for op in case.get("pre", []) if op == "set_coords")
+        run_pre_history(g, case, rule, nf)
+        ctx.count("pre-history", " ".join(case.get("pre", [])) or "none")
     except Exception as ex:
-        ck.fail("raises", case, dict(info0, call="warm-up"), detail=repr(ex))
+        ck.fail("raises", case, dict(info0, call="pre-history"), detail="%r in %r" % (ex, case.get("pre")))
+        return
+    # reference areas: the requested rule/order on a FRESH grid of the same source with the CURRENT coordinates
+    try:
+        def fresh():
+            f = build_grid(gc)
+            for _ in range(n_shift):
+                set_coords(f)
+            return f
+        ref_areas = np.array(fresh().compute_face_areas(rule[0], rule[1])[0], dtype=float)
+        ref_default = np.array(fresh().compute_face_areas()[0], dtype=float)
+        total = float(fresh().calculate_total_face_area(rule[0], rule[1]))
+    except Exception as ex:
+        ck.fail("raises", case, dict(info0, call="reference compute_face_areas"), detail=repr(ex))
+        return
     a_int, Ka = dyadic_scale(ref_areas)
 
     def add_model(dims, arr, what, impl):
@@ -231,7 +342,7 @@ def run_case(ck, case, ctx):
             bad = [i for i in range(len(want)) if not close(got[i], want[i], mag[i])]
             if bad:
                 i = bad[0]
-                ck.fail("value", case, dict(info, rule=rule[0], order=rule[1], warm=case["warm"]),
+                ck.fail("value", case, dict(info, rule=rule[0], order=rule[1], pre=" ".join(case.get("pre", [])) or "none"),
                         detail="entry %d: got %r, expected %r (sum|a d| = %r)" % (i, got[i], float(want[i]), float(mag[i])))
             for i in range(len(want)):
                 if mag[i] > 0:
@@ -267,10 +378,23 @@ def run_case(ck, case, ctx):
         one = mk_da(g, np.ones(nf, dtype=rng.choice(["float64", "int64", "bool"])), ("n_face",), "one")
         r1 = float(one.integrate(rule[0], rule[1]).values)
         if abs(r1 - total) > 1e-12 * abs(total):
-            ck.fail("one", case, dict(info0, rule=rule[0], order=rule[1], warm=case["warm"]),
+            ck.fail("one", case, dict(info0, rule=rule[0], order=rule[1], pre=" ".join(case.get("pre", [])) or "none"),
                     detail="integrate(1) = %r, total area = %r" % (r1, total))
     except Exception as ex:
         ck.fail("raises", case, dict(info0, centre="face", what="constant one"), detail=repr(ex))
+    # ---- integrate() (defaults) = integrate("triangular", 4) = sum value * computed default areas ----
+    try:
+        v = gen_values(rng, [nf], "float64")
+        da = mk_da(g, v, ("n_face",), "d")
+        r_def = float(da.integrate().values)
+        r_exp = float(da.integrate("triangular", 4).values)
+        want, mag = exact_integral(ref_default, v)
+        if r_def != r_exp or not close(r_def, want[0], mag[0]):
+            ck.fail("value", case, dict(info0, centre="face", rule="default", pre=" ".join(case.get("pre", [])) or "none"),
+                    detail="integrate() = %r, integrate('triangular', 4) = %r, sum value*area(triangular 4, fresh grid) = %r"
+                    % (r_def, r_exp, float(want[0])))
+    except Exception as ex:
+        ck.fail("raises", case, dict(info0, centre="face", what="default rule"), detail=repr(ex))
     # ---- node- and edge-centred data must be rejected ----
     for centre, size in (("node", nn), ("edge", ne)):
         lead = lead_shape(rng, counts)[:2]
@@ -334,7 +458,7 @@ def main(ck):
     tet = meshgen._poly("tetra")
     lon, lat = lonlat_of(tet.nodes)
     cases.append({"kind": "case", "grid": {"gkind": "pyramid(V=F)", "name": "tetra", "lon": lon, "lat": lat,
-                                           "table": tet.table()}, "rule": ["triangular", 4], "seed": 1, "warm": "none"})
+                                           "table": tet.table()}, "rule": ["triangular", 4], "seed": 1, "pre": []})
     for _ in range(320 if ck.tier == "quick" else 6000):
         cases.append(gen_case(rng))
     ck.cov["rule"] = ("corpus + tetrahedron + random grids (sphere tilings and partial grids from 9 polyhedra, pyramids "
@@ -347,7 +471,7 @@ def main(ck):
         run_case(ck, c, ctx)
         if idx in (0, 5, 17):
             ck.sample({"grid": c["grid"]["name"], "gkind": c["grid"]["gkind"], "n_face": len(c["grid"]["table"]),
-                       "rule": c["rule"], "warm": c["warm"]})
+                       "rule": c["rule"], "source": c["grid"].get("source"), "pre": c.get("pre")})
     n_model, variant = 0, None
     if ok:
         try:
@@ -393,8 +517,12 @@ def main(ck):
                    "UxDataset.integrate cannot be exercised (UxDataset cannot be constructed with the installed xarray)",
     })
     ck.trusted += ["np.einsum('i,...i') modelled by its documented semantics (row-major rows dotted with the areas)",
-                   "Grid.compute_face_areas of a fresh grid as the reference areas (C05 owns their correctness)"]
-    ck.assumptions += ["face-centred arrays carry the face dimension last (the property's 'leading dimensions')",
+                   "Grid.compute_face_areas(rule, order) of a fresh grid of the same source with the current coordinates as the reference areas (C05 owns their correctness)"]
+    ck.assumptions += ["reading of 'face area': the property text says 'areas as computed with the requested rule and order' and "
+                       "'integrating the constant 1 gives the grid's total area', so the weights are Grid.compute_face_areas(rule, order) "
+                       "on the grid's current coordinates also when the source ships its own areas (MPAS areaCell) or the user assigned "
+                       "face_areas; the stored face_areas variable itself is not used as the reference",
+                       "face-centred arrays carry the face dimension last (the property's 'leading dimensions')",
                        "every float is a dyadic rational: areas and data are passed to the model exactly, scaled to integers"]
 
 
